@@ -125,6 +125,7 @@ async fn via_raw(addr: SocketAddr, ca: &Path, identity: Option<(Vec<u8>, Vec<u8>
 
 pub async fn run_case(seed: u64, i: u64, out: &mut String) {
     let _ = writeln!(out, "case tls {} {}", seed, i);
+    crate::util::set_case_header(&format!("case tls {} {}", seed, i));
     let dir = work_dir().join(format!("tls{}", i));
     let res: anyhow::Result<()> = async {
         let trusted = Certs::generate(&dir, "trusted")?;
